@@ -30,7 +30,7 @@ static int eff_cutoff(int cutoff) {
   if (cutoff < 64) cutoff = 64;
   return cutoff;
 }
-static int closer(int a, int cutoff) { return 3 * a < 4 * cutoff; }
+static int closer(int a, int cutoff) { return 3 * a < 4 * cutoff || a < 128; }
 /* coverage information only: replicate the split arithmetic to label the regime */
 static void strassen_regime(int m, int k, int n, int cutoff, int *depth, int *emptyq, int *strips) {
   *depth = 0;
